@@ -49,6 +49,8 @@ def cases(tier, seed):
     cfgs = cfg_table(tier, seed)
     for si, spec in enumerate(specs):
         for ci, cfg in enumerate(cfgs):
+            if tier == "thorough" and cfg.get("step_solver") == "Standard" and si % 2 == 1:
+                continue  # the Standard step solver on every second spec (bounds the tier to ~12 minutes)
             if tier == "quick" and (si + ci) % 4 != seed % 4 and cfg["newton"] != "Globalized" and si % 3 != 0:
                 continue  # quick: every spec with every Globalized config, a third of the specs with everything, plus one seed slice
             for sc in (G.scalings_of(spec, (0, 1 if (si + ci) % 2 else 4)) if tier == "thorough" else G.scalings_of(spec, (0, 1))):
